@@ -397,7 +397,10 @@ class ExprMixin(ExecBase):
                             raise UnsupportedError("format spec in f-string")
                         x = next(it)
                         if x.ty.kind == "opt":
-                            raise UnsupportedError("optional value formatted into text")
+                            # str(None) would silently put "None" into the text: treated as an error here
+                            self.oblige("safe", s, z3.Not(V.opt_isnone(x)), "value formatted into text is not None", node.lineno)
+                            s.assume(z3.Not(V.opt_isnone(x)))
+                            x = V.opt_val(x)
                         parts.append(O.coerce(pure_str(x), T.STR).t)
                 yield V.mk_str(z3.Concat(parts) if len(parts) > 1 else (parts[0] if parts else z3.StringVal(""))), s
             else:
